@@ -499,7 +499,7 @@ func VerifC20() {
 	ctx := context.Background()
 	w := &c20World{}
 	vm, _ := c20setup(ctx, w, verifParam("parsedCache", 4, 1), verifParam("acceptedCache", 8, 8))
-	n := verifParam("engineCalls", 4, 6)
+	n := verifParam("engineCalls", 4, 5)
 	for i := 0; i < n; i++ {
 		c20step(ctx, vm, w, true)
 	}
